@@ -35,7 +35,9 @@ RULE = ("programs: 1-8 grid/line/named qubits, 5-60 operations over the vocabula
         "distinct by the abstract program.  sweeps: random nestings of Linspace/Points/const/Zip/ZipLongest/Product/Concat/"
         "ListSweep with metadata, units, float32 and float64 encodings; non-trivial = more than one assignment or metadata.  "
         "results: every repetition count 0..70, 1-3 instances, 1-70 qubits; non-trivial = at least one set bit and reps not a "
-        "multiple of 8 or >1 key.  devices: random gate lists / qubit sets / pair sets; non-trivial = >= 2 gates and >= 1 pair.")
+        "multiple of 8 or >1 key.  devices: random gate lists / qubit sets / pair sets; non-trivial = >= 2 gates and >= 1 pair.  "
+        "args: every branch of arg_to_proto (scalars, uniform and mixed containers, ndarrays of 11 dtypes, units, expressions), "
+        "conditions, Clifford tableaux, InternalGate messages, ArgMappings; distinct by value.")
 ASSUMPTIONS = [
     "equality of operations is Cirq's value equality, so two uses that Cirq itself considers equal (X**1 and X**-1, "
     "PhasedXZ gates with one canonical form, tags 1 and True) may come back as either spelling; the comparator accepts "
@@ -84,6 +86,20 @@ MUST_REACH = [
 ]
 
 _S = {}
+_KNOWN_SEEN = {}
+KNOWN_RANDOM_MECHS = ("C16:moment-tags-lost-on-constants-hit", "C16:finite-random-variable-values-depend-on-distribution-order")
+
+
+def check_known(ctx, cond, monitor, mech, msg, **wit):
+    """ctx.check, except that a mechanism which the *random* sections classify explained-by style is stored at
+    most 3 times per shard (further witnesses are counted as events) so that it cannot crowd out other findings."""
+    if not cond and mech in KNOWN_RANDOM_MECHS:
+        _KNOWN_SEEN[mech] = _KNOWN_SEEN.get(mech, 0) + 1
+        if _KNOWN_SEEN[mech] > 3:
+            ctx.ok(monitor)
+            ctx.event("further-witness:" + mech)
+            return False
+    return ctx.check(cond, monitor, mech, msg, **wit)
 
 
 def setup(ctx):
@@ -1103,7 +1119,7 @@ def roundtrip_program(ctx, prog, label):
     back = S.deserialize(msg2)
     errs, why = structure_verdict(ctx, [(spec, back)], [circuit])
     mech = "C16:program-roundtrip-structure" if why in (None, "generic") else why
-    ctx.check(not errs, "program-structure", mech, lambda: "; ".join(errs[:3]), errors=errs[:8], program=strip_private(spec),
+    check_known(ctx, not errs, "program-structure", mech, lambda: "; ".join(errs[:3]), errors=errs[:8], program=strip_private(spec),
               label=label)
     nconst = check_proto(ctx, msg, [spec], [msg.circuit])
     n_ops = WP.count_ops(spec)
@@ -1121,7 +1137,7 @@ def roundtrip_program(ctx, prog, label):
             names = sorted(cirq.parameter_names(circuit))
             resolver = {n: 0.37 + 0.211 * i for i, n in enumerate(names)}
             u0 = circuit_unitary(circuit, qubits, resolver)
-        except (TypeError, ValueError) as e:
+        except Exception as e:  # noqa: BLE001 - see comment above
             ctx.event("semantic-skip:" + type(e).__name__)
             u0 = None
         if u0 is not None:
@@ -1129,7 +1145,7 @@ def roundtrip_program(ctx, prog, label):
                 u1 = circuit_unitary(back, qubits, resolver)
                 ok = L.phase_equal(u1, u0, 1e-5 * max(1.0, math.sqrt(n_ops)))
                 d = L.phase_diff(u1, u0)
-            except (TypeError, ValueError, KeyError) as e:
+            except Exception as e:  # noqa: BLE001 - the original could be evaluated, the round-tripped circuit cannot
                 ok, d = False, "%s: %s" % (type(e).__name__, e)
             ctx.check(ok, "program-unitary", "C16:program-roundtrip-unitary",
                       lambda: "unitary of the deserialized circuit differs (up to phase) by %s" % d, program=strip_private(spec))
@@ -1227,8 +1243,8 @@ def sec_multi(ctx, rng, case):
             serrs, why = structure_verdict(ctx, [(spec, o[2]) for spec, o in zip(specs, out)], circuits)
             why = why if not errs else "generic"
             errs += serrs
-        ctx.check(not errs, "multi-program-structure",
-                  "C16:multi-program-roundtrip" if why in (None, "generic") else why, lambda: "; ".join(errs[:3]),
+        check_known(ctx, not errs, "multi-program-structure",
+                    "C16:multi-program-roundtrip" if why in (None, "generic") else why, lambda: "; ".join(errs[:3]),
                   errors=errs[:8], programs=[strip_private(s) for s in specs], form=form)
         check_proto(ctx, msg, specs, [kc.circuit for kc in msg.keyed_circuits])
         hits = sum(count_table_hits(s) for s in specs)
@@ -1303,8 +1319,8 @@ def sec_multi(ctx, rng, case):
         serrs, why = structure_verdict(ctx, [(cs, o[2]) for cs, o in zip(calls, out)], built)
         why = why if not errs else "generic"
         errs += serrs
-    ctx.check(not errs, "circuit-function-structure",
-              "C16:circuit-function-roundtrip" if why in (None, "generic") else why, lambda: "; ".join(errs[:3]),
+    check_known(ctx, not errs, "circuit-function-structure",
+                "C16:circuit-function-roundtrip" if why in (None, "generic") else why, lambda: "; ".join(errs[:3]),
               errors=errs[:8], template=strip_private(template), sweep=sweep_spec, as_map=as_map)
     check_proto(ctx, msg, calls, [kc.circuit for kc in msg.keyed_circuits])
     ctx.distinct(("cfn", repr(strip_private(template)), repr(sweep_spec), as_map), nontrivial=len(rows) > 1)
@@ -2111,7 +2127,7 @@ def sec_sweeps(ctx, rng, case):
                 errs.append("enumerated values differ: %r != %r (distribution order %r -> %r)" % (
                     [v for ((_, v),) in rt.param_tuples()][:6], [v for ((_, v),) in frv.param_tuples()][:6], list(dist),
                     list(rt.distribution)))
-        ctx.check(not errs, "random-variable-sweep", mech, lambda: "; ".join(errs), dist=dist,
+        check_known(ctx, not errs, "random-variable-sweep", mech, lambda: "; ".join(errs), dist=dist,
                   length=length, seed=seed)
         ctx.distinct(("frv", repr(dist), length, seed, repr(meta)), nontrivial=n > 1)
     else:  # deterministic edges
@@ -2359,8 +2375,9 @@ def sec_results(ctx, rng, case):
     ctx.check(not errs, "results-roundtrip", "C16:results-roundtrip", lambda: "; ".join(errs[:3]), reps=[sp[0][2] for sp in plain],
               keys=[(s[0], len(s[1]), s[2]) for s in specs])
     anybit = any(any(any(any(q for q in i_) for i_ in r_) for r_ in rp[k_]) for sp in plain for (_, rp, _) in sp for k_ in rp)
-    ctx.distinct(("results", [(s[0], len(s[1]), s[2]) for s in specs], [[(repr(p), r_) for p, _, r_ in sp] for sp in plain],
-                  int(rng.integers(1 << 30))),
+    import hashlib
+    dig = hashlib.blake2b(repr([[rp for (_, rp, _) in sp] for sp in plain]).encode(), digest_size=8).hexdigest()
+    ctx.distinct(("results", [(s[0], len(s[1]), s[2]) for s in specs], [[(repr(p), r_) for p, _, r_ in sp] for sp in plain], dig),
                  nontrivial=anybit and (nkeys > 1 or any(sp[0][2] % 8 for sp in plain)))
     ctx.sample({"keys": [(s[0], len(s[1]), s[2]) for s in specs], "reps": [sp[0][2] for sp in plain]})
 
@@ -2607,12 +2624,13 @@ def _wrap(f):
 
 
 SECTIONS = [
-    ("programs", sec_programs, 700, 21000, 5.0),
-    ("multi", sec_multi, 210, 6300, 1.5),
-    ("prog_edges", sec_prog_edges, 60, 160, 0.4),
-    ("args", sec_args, 2100, 63000, 1.5),
-    ("sweeps", sec_sweeps, 2000, 60000, 2.0),
-    ("results", sec_results, 1420, 42600, 2.5),
-    ("devices", sec_devices, 300, 9000, 2.0),
+    # name, function, quick cases, thorough cases, time weight (measured: 27 / 11 / 0.4 / 0.4 / 0.4 / 2.5 / 4.3 ms per case)
+    ("programs", sec_programs, 2800, 120000, 8.0),
+    ("multi", sec_multi, 840, 40000, 1.5),
+    ("prog_edges", sec_prog_edges, 60, 160, 0.2),
+    ("args", sec_args, 7000, 300000, 0.6),
+    ("sweeps", sec_sweeps, 10000, 400000, 0.8),
+    ("results", sec_results, 7100, 200000, 2.5),
+    ("devices", sec_devices, 1500, 60000, 1.2),
 ]
 SECTIONS = [(n, _wrap(f), a, b, w) for (n, f, a, b, w) in SECTIONS]
